@@ -276,8 +276,14 @@ def run(ctx):
                     if alt != fm and "type_data" in fams.get(alt, {}) and (fm == "G" or alt == "G"):
                         desc = fams[alt]["type_data"]
                         break
+            if not desc and fm == "M" and "encode_body" not in fams.get("S", {}) and "encode_body" not in fams.get("G", {}):
+                # ManifestSbor + ScryptoDescribe types: the only codec is the manifest one; its shape is what the (Scrypto) schema describes
+                desc = fams.get("S", {}).get("type_data") or fams.get("G", {}).get("type_data")
+                cross = True
+            else:
+                cross = False
             # ---- kind agreement
-            if "value_kind" in d and desc:
+            if "value_kind" in d and desc and not cross:
                 vb = ctx.body(d["value_kind"])
                 vk = vk_class(F, vb)
                 tk = td_class(F, desc)
@@ -312,7 +318,7 @@ def run(ctx):
                 x = delegate_inner(ctx.body(desc), r"Describe(<[^>]*>)?>::type_data$")
                 if x:
                     inner["type_data"] = x
-            if len(inner) >= 2 and et and et[0] == "delegate":
+            if len(inner) >= 2 and et and et[0] == "delegate" and not cross:
                 stats["transparent-decided"] += 1
                 same = len({tuple(v) for v in inner.values()}) == 1
                 ctx.ob(f"transparent|{ty}|{fm}", same, f"{short}: delegates to " + "; ".join(f"{k}->{v}" for k, v in sorted(inner.items())),
